@@ -186,7 +186,9 @@ NAMES = ["a", "b", "sub", "x y", "ü", "index.gmi", "index.gemini", "f.gmi", "é
          "..x", "x..", "...", "\U0001f600", "e.txt",
          # names that are not in Unicode normalisation form C (the file system compares bytes): decomposed accents,
          # conjoining Hangul jamo, singleton code points; and their normalised twins living next to them
-         "u\u0308", "e\u0301.gmi", "\u00e9.gmi", "\u1100\u1161", "\uac00", "\u2126", "\u03a9", "\u212b", "\ufb01le", "a\u0323\u0307"]
+         "u\u0308", "e\u0301.gmi", "\u00e9.gmi", "\u1100\u1161", "\uac00", "\u2126", "\u03a9", "\u212b", "\ufb01le", "a\u0323\u0307",
+         # names that begin or end with a blank (space, no-break space, ideographic space): the end of the path is the end of the request line
+         "t ", " l", "nb\u00a0", "\u3000w", "t"]
 MARK = "zzoutside"          # every directory outside the root holds an entry with this name prefix
 
 
